@@ -10,10 +10,10 @@ prop(
     stages=[
         dict(run="^TestPropFailover$",
              quick=dict(checks=320, shards=16, timeout=900),
-             thorough=dict(checks=1600, shards=16, timeout=1800)),
+             thorough=dict(checks=4800, shards=16, timeout=3600)),
         dict(run="^TestPropChecks$",
              quick=dict(checks=330, shards=8, timeout=900),
-             thorough=dict(checks=8000, shards=16, timeout=3600)),
+             thorough=dict(checks=48000, shards=16, timeout=5400)),
         dict(run="^TestFaultTable$",
              thorough=dict(shards=16, timeout=3600)),
     ],
@@ -35,8 +35,9 @@ prop(
                "errors, timeouts and 5xx and does not place a connection that breaks mid-body. 404 on config/flags/metadata is pint's separate "
                "'unsupported API' feature: only no-crash is checked there (class unsupported-api:*). rule/link is online but talks to the linked URLs, not "
                "to a Prometheus server, and is not part of part 2. coverage.exhaustive stays false in the evidence file (vstat has no switch for it); the "
-               "thorough tier nevertheless runs the complete table - see counters table_cells_total / table_cells_this_run.",
+               "thorough tier nevertheless runs the complete table - see counters table_cells_total / table_cells_run (equal when the whole table ran).",
     assumptions=["unavailability = {connection refused, timeout, HTTP 500/503 with unparsable body, JSON errorType server_error}; query-caused = {bad_data, execution, 404 on query endpoints}",
                  "pint-side timeout is 20 ms only on upstreams in timeout mode, 30 s elsewhere, so a busy machine cannot turn a healthy upstream into a timeout",
-                 "a call that takes more than 120 s (part 2: 180 s) is inconclusive, never a violation"],
+                 "a call that takes more than 120 s (part 2: 180 s) is inconclusive, never a violation",
+                 "a failing cell must fail again on an immediate second run with fresh servers and ports; otherwise it is counted inconclusive (more than 3-5 of those make the run exit 2)"],
 )
